@@ -70,6 +70,8 @@ structure Deadline where
   d : Int
   /-- the `fasttime` returned by makeDeadline -/
   dl : Int
+  /-- ghost: no clock goroutine was running when the deadline was made (so `current` was read afresh) -/
+  fresh : Bool
   deriving DecidableEq, Repr
 
 structure State where
@@ -91,14 +93,20 @@ def reached (s : State) (dl : Int) : Bool := decide (dl ≤ s.current)
 
 /-- the locked block of makeDeadline: refresh a stale `current` when no updater is running -/
 def refresh (s : State) : State :=
-  if !s.running && s.started then { s with current := ticks (s.now - s.startNs), lastWrite := s.now } else s
+  { s with
+    current := if !s.running && s.started then ticks (s.now - s.startNs) else s.current
+    lastWrite := if !s.running && s.started then s.now else s.lastWrite }
 
-/-- `extendClock(end)` -/
+/-- `extendClock(end)`: set `start` if it is zero, raise `clockEnd` to `end + 1s`, start the updater if
+    none is running (the ghost `lastWrite` then marks the birth of the goroutine) -/
 def extendClock (p : Params) (s : State) (e : Int) : State :=
-  let s1 := if s.started then s else { s with started := true, startNs := s.now, lastWrite := s.now }
   let shutdown := e + ticks p.slop
-  let s2 := if shutdown > s1.clockEnd then { s1 with clockEnd := shutdown } else s1
-  if s2.running then s2 else { s2 with running := true, lastWrite := s2.now }
+  { s with
+    started := true
+    startNs := if s.started then s.startNs else s.now
+    clockEnd := if shutdown > s.clockEnd then shutdown else s.clockEnd
+    running := true
+    lastWrite := if s.running then s.lastWrite else s.now }
 
 /-- `makeDeadline(d)`: new state and the returned deadline -/
 def makeDeadline (p : Params) (s : State) (d : Int) : State × Int :=
@@ -115,7 +123,7 @@ def startWatch (p : Params) (s : State) (d : Int) : State :=
   if d = maxInt64 then s
   else
     let r := makeDeadline p s d
-    { r.1 with pending := { t0 := s.now, d := d, dl := r.2 } :: r.1.pending }
+    { r.1 with pending := { t0 := s.now, d := d, dl := r.2, fresh := !s.running } :: r.1.pending }
 
 /-- one iteration of the loop of runClock, `dt` ns after the previous event: store the time, then
     evaluate the loop condition; leaving the loop clears `running`. -/
@@ -126,7 +134,7 @@ def tick (s : State) (dt : Int) : State :=
 /-- the locked block of `stopClock`.  Deadlines pending at that moment are no longer covered by the
     clock (StopTimeoutClock "abandons" the clock): the model drops them from `pending`. -/
 def stop (s : State) : State :=
-  if s.running then { s with clockEnd := 0, pending := [] } else { s with pending := [] }
+  { s with clockEnd := if s.running then 0 else s.clockEnd, pending := [] }
 
 inductive Event where
   /-- a runner calls startTimeoutWatch with MatchTimeout `d` (no time passes) -/
